@@ -68,7 +68,7 @@ def run(ctx):
                 'non-decreasing in y; vector calls of length 2, 60, 65 (with repeats), reversed order and with rows a few 1e-7 apart must reproduce the one-element results. '
                 'TLC (InverseLaws) evaluates the laws.  non-trivial = every table; distinct by (family, theta)') % (nchain, npts + 1, npts + 1)
     ctx.assumptions = ['the inverse is judged through the implementation\'s own partial_derivative (C07 ties that to the CDF)']
-    jobs = [(fam, pos, th, npts) for fam in O.FAMS for pos, th in enumerate(O.chain(fam, nchain), 1)]
+    jobs = [(fam, pos, th, npts) for fam in O.FAMS4 for pos, th in enumerate(O.chain(fam, nchain), 1)]
     with Pool(16) as pool:
         obs = pool.map(O.Safe(_observe), jobs, chunksize=1)
     obs, jobs = O.split_raised(ctx, 'C08', obs, jobs, 'harness.props.C08._observe')
